@@ -52,6 +52,12 @@ SITES = {
 }
 
 
+# short TLC runs (seconds): C1-only JIT and few GC threads cost far less CPU than the default C2 + one GC
+# thread per core; long exhaustive runs keep the optimising compiler
+JVM_SHORT = {"JAVA_TOOL_OPTIONS": "-XX:ParallelGCThreads=2 -XX:TieredStopAtLevel=1"}
+JVM_LONG = {"JAVA_TOOL_OPTIONS": "-XX:ParallelGCThreads=4"}
+
+
 def as_code_dev():
     return sorted({e["deviation"] for e in load_known().get("open", [])
                    if e["property"] == "C11" and e.get("deviation")})
@@ -84,6 +90,7 @@ def model_check(chk, tier, known):
             timeout=800, workers=nw, **kw):
         cfg = tlc.write_cfg(wd / f"{name}.cfg", spec=spec, constants=c, invariants=invs, properties=props,
                             constraints=constraints, symmetry="Perms" if sym else None)
+        kw.setdefault("env", JVM_SHORT)
         return name, lambda: tlc.run(SPEC / "RaftImpl.tla", cfg, label=f"C11_mc_{name}", timeout=timeout,
                                      workers=workers, **kw)
 
@@ -101,7 +108,8 @@ def model_check(chk, tier, known):
                 ("crash_t2_l1", consts(3, [], 2, 1, 1, 2, crash=1, sym=True)),
                 ("elect_n4_t1", consts(4, [], 1, 0, 0, 3, sym=True))]
     for name, c in safe:
-        jobs.append(("safe",) + job(name, c, sym=True, timeout=3000 if tier != "quick" else 600))
+        jobs.append(("safe",) + job(name, c, sym=True, timeout=3000 if tier != "quick" else 600,
+                                    env=JVM_LONG if tier != "quick" else JVM_SHORT))
     for dev, d in DEVIATIONS.items():
         c = consts(d["n"], [dev], d["term"], d["log"], d["ops"], d["msgs"], toseq=d["toseq"],
                    guide=d.get("guide", "NoGuide"))
@@ -114,6 +122,11 @@ def model_check(chk, tier, known):
                 c = consts(d["n"], [k for k in known if k != dev], d["term"], d["log"], d["ops"], d["msgs"],
                            toseq=d["toseq"])
                 jobs.append(("attr:" + dev,) + job("attr_" + dev, c, invs=[d["inv"]], props=()))
+    # random deep behaviours of the 5-node design model (simulation mode), safety clauses only
+    if tier != "quick":
+        c = consts(5, [], 4, 3, 4, 10)
+        jobs.append(("simulate",) + job("simulate_n5", c, invs=INVS, props=(), simulate="num=4000", depth=90,
+                                        seed=chk.seed, timeout=400, env=JVM_LONG))
     # fault-free progress (liveness, no state constraint): design and code-as-is
     for nm, dv in (("design", []), ("ascode", known)):
         c = consts(3, dv, 1, 2 if tier == "quick" else 3, 2 if tier == "quick" else 3, 99, loss=False)
@@ -304,9 +317,9 @@ def apply_action(w, name, arg):
 def model_behaviours(chk, tier, known, rng):
     """Action sequences (root paths of the as-code model's state graph)."""
     if tier == "quick":
-        confs = [("g_t2_l1", consts(3, known, 2, 1, 1, 2, toseq=(1, 2)), 500),
-                 ("g_crash", consts(3, known, 1, 1, 1, 2, crash=1, toseq=(1,)), 250),
-                 ("g_l2", consts(3, known, 1, 2, 2, 2, toseq=(2,)), 250)]
+        confs = [("g_t2_l1", consts(3, known, 2, 1, 1, 2, toseq=(1, 2)), 300),
+                 ("g_crash", consts(3, known, 1, 1, 1, 2, crash=1, toseq=(1,)), 150),
+                 ("g_l2", consts(3, known, 1, 2, 2, 2, toseq=(2,)), 150)]
     else:
         confs = [("g_t2_l1", consts(3, known, 2, 1, 1, 2, toseq=(1, 2)), 100000),
                  ("g_crash", consts(3, known, 1, 1, 1, 2, crash=1, toseq=(1,)), 100000),
@@ -321,6 +334,7 @@ def model_behaviours(chk, tier, known, rng):
         wd = tlc.workdir(f"C11_{name}")
         cfg = tlc.write_cfg(wd / "g.cfg", constants=c, constraints=["Bounded"])
         res = tlc.run(SPEC / "RaftImpl.tla", cfg, label=f"C11_{name}", dump_dot=wd / "g.dot", timeout=1500,
+                      env=JVM_SHORT,
                       workers=max(2, tlc.DEFAULT_WORKERS // 2))
         g = parse_dot_edges(wd / "g.dot")
         (wd / "g.dot").unlink(missing_ok=True)
@@ -363,9 +377,78 @@ def replay_behaviour(acts, n=3):
 # ---------------------------------------------------------------------------
 # 3. adversarial direct-drive schedules chosen in Python (beyond the model's bounds)
 
-def random_schedule(rng, n, steps, *, partitions=True, crashes=True, style=None):
+def rounds_schedule(rng, n, steps):
+    """Leadership rounds with partial reach: each round one node campaigns and reaches only a random subset
+    of the others, replicates to another random subset, gets answers from a third; everything else stays
+    in flight and may be delivered (stale) in a later round.  This is what produces logs of different
+    length/term, deposed leaders that still act, votes and AppendEntries racing across terms."""
     w = World(n)
-    style = style or rng.choice(("storm", "stale", "churn", "calm"))
+    ids = list(w.nodes)
+    quorum = n // 2 + 1
+
+    def pump(pred, p=1.0):
+        # one pass, newest first; answers produced meanwhile are appended behind and not touched here
+        for k in sorted((k for k, e in enumerate(w.pool) if pred(e[0])), reverse=True):
+            if len(w.steps) >= steps:
+                break
+            if rng.random() < p:
+                w.deliver(k)
+
+    while len(w.steps) < steps:
+        live = [i for i in ids if not w.is_crashed(i)]
+        cands = [i for i in live if w.live(i, ET)]
+        x = rng.random()
+        if x < 0.08 and len(live) > quorum:
+            w.crash(rng.choice(live))
+            continue
+        if x < 0.16:
+            down = [i for i in ids if w.is_crashed(i)]
+            if down:
+                w.restart(rng.choice(down))
+                continue
+        if not cands:
+            hb = [i for i in live if w.live(i, HB)]
+            if not hb:
+                break
+            c = rng.choice(hb)
+        else:
+            c = rng.choice(cands)
+            others = [i for i in ids if i != c]
+            reach = set(rng.sample(others, min(len(others), rng.choice((quorum - 1, quorum - 1, n - 1, max(0, quorum - 2))))))
+            w.fire(c, ET)
+            pump(lambda m: m["type"] == "RV" and m["src"] == c and m["dst"] in reach)
+            pump(lambda m: m["type"] == "RVR" and m["dst"] == c, p=0.9)
+        if w.nodes[c].is_leader:
+            others = [i for i in ids if i != c]
+            for _ in range(rng.randint(0, 2)):
+                if w.nops < 14:
+                    w.submit(c)
+            for _ in range(rng.randint(0, 3)):
+                if not w.live(c, HB) or w.is_crashed(c):
+                    break
+                w.fire(c, HB)
+                s = set(rng.sample(others, rng.randint(0, len(others))))
+                pump(lambda m: m["type"] == "AE" and m["src"] == c and m["dst"] in s, p=0.9)
+                pump(lambda m: m["type"] == "AER" and m["dst"] == c, p=0.8)
+                if rng.random() < 0.4 and w.nops < 14:
+                    w.submit(c)
+        # stale traffic from earlier rounds
+        for _ in range(rng.randint(0, 3)):
+            if w.pool:
+                w.deliver(rng.randrange(len(w.pool)))
+        if rng.random() < 0.25:
+            for _ in range(len(w.pool) // 2):
+                w.drop(rng.randrange(len(w.pool)))
+        if rng.random() < 0.15 and w.nops < 14:
+            w.submit(rng.choice(ids))          # a client that talks to whoever (deposed leaders included)
+    return w, "rounds"
+
+
+def random_schedule(rng, n, steps, *, partitions=True, crashes=True, style=None):
+    style = style or rng.choice(("storm", "stale", "churn", "calm", "rounds", "rounds", "rounds"))
+    if style == "rounds":
+        return rounds_schedule(rng, n, steps)
+    w = World(n)
     part = None
     p_to = {"storm": 0.22, "stale": 0.10, "churn": 0.15, "calm": 0.05}[style]
     p_drop = {"storm": 0.08, "stale": 0.05, "churn": 0.12, "calm": 0.02}[style]
@@ -444,7 +527,7 @@ def sim_run(rng, n, *, kind):
         emin, emax = lr.choice(((1.5, 3.0), (1.0, 2.0)))
         dmax = lr.choice((0.002, 0.02, hb / 5))
         draw = lambda: lr.uniform(0.0002, dmax)        # noqa: E731
-        loss, duration = 0.0, 40.0
+        loss, duration = 0.0, 24.0
     elif kind == "scenario":
         hb, (emin, emax) = 0.3, (1.0, 2.0)
         draw, loss, duration = None, 0.0, 18.0
@@ -554,10 +637,10 @@ def sim_run(rng, n, *, kind):
 # ---------------------------------------------------------------------------
 # 5. trace validation (RaftTrace.tla is the judge)
 
-_VLINE = re.compile(r'<<\s*"V",\s*(\d+),\s*"([^"]+)",\s*(\d+),\s*(\d+),\s*"([^"]*)"\s*>>')
+_VLINE = re.compile(r'<<\s*"V",\s*(\d+),\s*"([^"]+)",\s*(\d+),\s*(\d+),\s*"([^"]*)",\s*"([^"]*)"\s*>>')
 
 
-def validate(traces_by_n, dev, label, chunk=400):
+def validate(traces_by_n, dev, label, chunk=7000):
     """traces_by_n: {n: [trace dict]} -> {id: (verdict, pos, mpos, [(clause, pos)])}, [TLCResult]"""
     wd = tlc.WORK / label
     wd.mkdir(parents=True, exist_ok=True)
@@ -565,8 +648,15 @@ def validate(traces_by_n, dev, label, chunk=400):
     for n, traces in traces_by_n.items():
         cfg = tlc.write_cfg(wd / f"trace_n{n}.cfg", spec="Spec", constants={
             "Nodes": "{" + ",".join(str(i) for i in range(1, n + 1)) + "}", "Nil": 0, "Dev": tla_set(dev)})
-        for k in range(0, len(traces), chunk):
-            work.append((n, k, cfg, traces[k:k + chunk]))
+        part, size, k = [], 0, 0
+        for t in traces:                      # chunks balanced by number of steps
+            part.append(t)
+            size += len(t["steps"]) + 5
+            if size >= chunk:
+                work.append((n, k, cfg, part))
+                part, size, k = [], 0, k + 1
+        if part:
+            work.append((n, k, cfg, part))
 
     def one(item):
         n, k, cfg, part = item
@@ -576,12 +666,13 @@ def validate(traces_by_n, dev, label, chunk=400):
         f = d / "traces.json"
         f.write_text(json.dumps(part, separators=(",", ":")))
         res = tlc.run(SPEC / "RaftTrace.tla", cfg, label=lab, workers=1, timeout=3000, heap="3g",
-                      env={"TRACE_FILE": str(f)})
+                      env=dict(JVM_SHORT, TRACE_FILE=str(f)))
         got = {}
         flat = re.sub(r"\s*\n\s*", " ", res.stdout)      # TLC wraps long PrintT values
         for mt in _VLINE.finditer(flat):
             fl = [(c.split(":")[0], int(c.split(":")[1])) for c in mt.group(5).split(";") if c]
-            got[int(mt.group(1))] = (mt.group(2), int(mt.group(3)), int(mt.group(4)), fl)
+            fd = {c.split(":")[0]: int(c.split(":")[1]) for c in mt.group(6).split(";") if c}
+            got[int(mt.group(1))] = (mt.group(2), int(mt.group(3)), int(mt.group(4)), fl, fd)
         miss = [t["id"] for t in part if t["id"] not in got]
         if miss:
             raise tlc.TLCFailure(f"{lab}: no verdict for traces {miss[:3]} (see {d / 'tlc.out'})")
@@ -603,35 +694,31 @@ def classify(chk, failing, traces, meta, known):
     (a) fired in this execution before that step (without it the model stops matching the code there) and
     (b) preferably is one TLC shows able to break this clause.  A clause failing after a model mismatch, or
     with no registered deviation involved, is keyed by the clause name: a VIOLATION."""
-    expl = {tid for tid, v in failing.items() if any(v[2] == 0 or v[2] > p for _, p in v[3])}
-    first_fire = {tid: {} for tid in expl}          # tid -> {deviation: first step where it made a difference}
-    if expl and known:
-        by_n = {}
-        for tid in sorted(expl):
-            by_n.setdefault(meta[tid]["n"], []).append(traces[tid])
-        for d in known:
-            v2, r2 = validate(by_n, [k for k in known if k != d], f"C11_attr_{d[:12]}")
-            for r in r2:
-                chk.add_tlc(f"RaftTrace Dev=as-code minus {d} (attribution)", r, count=False)
-            for tid in expl:
-                if v2[tid][2] != 0:
-                    first_fire[tid][d] = v2[tid][2]
-    for tid, (verdict, pos0, mpos, fl) in sorted(failing.items()):
+    for tid, (verdict, pos0, mpos, fl, first_fire) in sorted(failing.items()):
         for clause, pos in fl:
             st = traces[tid]["steps"][pos - 1]
             what = (f"PROP:{clause} at step {pos} ({st['a']} on n{st.get('n', '?')}) of a "
                     f"{meta[tid]['origin']} execution ({meta[tid]['n']} nodes)")
-            replay = {"meta": meta[tid], "trace": traces[tid], "verdict": [verdict, pos0, mpos, fl]}
+            replay = {"meta": meta[tid], "trace": traces[tid], "verdict": [verdict, pos0, mpos, fl, first_fire]}
             reproduced = mpos == 0 or mpos > pos
-            fired = sorted(d for d, p in first_fire.get(tid, {}).items() if p <= pos) if reproduced else []
-            if fired:
-                pref = [d for d in CLAUSE_DEV.get(clause, []) if d in fired]
-                d = pref[0] if pref else fired[0]
+            if clause == "ElectionSafety":
+                cands = ["same_term_ae_clears_vote"]
+            elif clause == "FutureTruth":
+                cands = ["future_keyed_by_index_only"]
+            else:
+                # wrong commits; a double leader explains them only if it was actually observed before
+                cands = ["match_is_follower_last_index", "stale_term_ae_response"]
+                if any(c == "ElectionSafety" and p <= pos for c, p in fl):
+                    cands.append("same_term_ae_clears_vote")
+            hit = [d for d in cands if d in known and 0 < first_fire.get(d, 0) <= pos] if reproduced else []
+            if hit:
+                d = hit[0]
                 chk.violation(d, f"{what}; the model with the registered deviations reproduces the execution "
-                                 f"exactly, deviation {d} ({SITES.get(d, '')}) fired before it", replay)
+                                 f"exactly, deviation {d} ({SITES.get(d, '')}) fired at step {first_fire[d]}",
+                              replay)
             else:
                 why = f"code and model already disagree at step {mpos}" if not reproduced else \
-                    "the model reproduces it with no registered deviation involved"
+                    "the model reproduces it, but no registered deviation able to break this clause fired"
                 chk.violation(clause, f"{what}; {why}", replay)
 
 
@@ -647,7 +734,13 @@ def run(tier, seed, replay=None):
     if replay:
         return run_replay(chk, replay, known)
 
-    cex = model_check(chk, tier, known)
+    import time
+    t0 = time.time()
+    phase = chk.extra.setdefault("phase_wall_s", {})
+    # TLC work (subprocesses) runs concurrently with the Python drivers of the real code
+    bg = ThreadPoolExecutor(max_workers=2)
+    f_mc = bg.submit(model_check, chk, tier, known)
+    f_beh = bg.submit(model_behaviours, chk, tier, known, random.Random(rng.random()))
 
     traces, meta = {}, {}
 
@@ -660,26 +753,8 @@ def run(tier, seed, replay=None):
             chk.note_drift(f"trace {tid} ({origin}): {note}")
         return tid
 
-    # spec -> code: TLC's counterexample for every deviation, executed on the real nodes (R1: a deviation
-    # is a finding only if the real objects reach the bad state)
-    cex_tid = {}
-    for dev, tr in cex.items():
-        acts = actions_from_trace(tr)
-        w = replay_behaviour(acts, DEVIATIONS[dev]["n"])
-        cex_tid[dev] = add(w, f"model:counterexample:{dev}", DEVIATIONS[dev]["n"], acts=acts)
-        chk.replays += 1
-    skipped = 0
-    for gname, acts in model_behaviours(chk, tier, known, rng):
-        w = replay_behaviour(acts)
-        skipped += w.skipped
-        add(w, f"model:{gname}", 3, acts=acts)
-        chk.replays += 1
-    chk.extra["model_choices_inapplicable_on_code"] = skipped
-    if skipped:
-        chk.note_drift(f"{skipped} environment choices of model behaviours were not applicable on the real nodes")
-
     # code -> spec, direct drive
-    n_rand = 500 if quick else 12000
+    n_rand = 360 if quick else 12000
     styles = {}
     for k in range(n_rand):
         n = (3, 3, 5, 4)[k % 4]
@@ -690,8 +765,8 @@ def run(tier, seed, replay=None):
     chk.extra["random_schedules"] = styles
 
     # code -> spec, real Simulation
-    n_sim = 36 if quick else 500
-    n_ff = 10 if quick else 80
+    n_sim = 22 if quick else 500
+    n_ff = 6 if quick else 80
     prog_fail = []
     sim_events = 0
     for k in range(n_sim):
@@ -709,6 +784,31 @@ def run(tier, seed, replay=None):
             prog_fail.append((tid, prog))
     chk.extra["simulation_events"] = sim_events
     chk.extra["faultfree_runs"] = n_ff
+    phase["python_drivers"] = round(time.time() - t0, 1)
+
+    # spec -> code: behaviours of the as-code model's state graph
+    skipped = 0
+    for gname, acts in f_beh.result():
+        w = replay_behaviour(acts)
+        skipped += w.skipped
+        add(w, f"model:{gname}", 3, acts=acts)
+        chk.replays += 1
+    phase["graph_replays_done"] = round(time.time() - t0, 1)
+    # spec -> code: TLC's counterexample for every deviation, executed on the real nodes (R1: a deviation
+    # is a finding only if the real objects reach the bad state)
+    cex = f_mc.result()
+    bg.shutdown()
+    phase["model_checking_done"] = round(time.time() - t0, 1)
+    cex_tid = {}
+    for dev, tr in cex.items():
+        acts = actions_from_trace(tr)
+        w = replay_behaviour(acts, DEVIATIONS[dev]["n"])
+        skipped += w.skipped if dev in known else 0
+        cex_tid[dev] = add(w, f"model:counterexample:{dev}", DEVIATIONS[dev]["n"], acts=acts)
+        chk.replays += 1
+    chk.extra["model_choices_inapplicable_on_code"] = skipped
+    if skipped:
+        chk.note_drift(f"{skipped} environment choices of model behaviours were not applicable on the real nodes")
 
     by_n = {}
     for tid, t in traces.items():
@@ -717,8 +817,9 @@ def run(tier, seed, replay=None):
     for r in results:
         chk.add_tlc(f"RaftTrace batch (Dev=as-code {known})", r)
     chk.impl_traces = len(traces)
+    phase["traces_validated"] = round(time.time() - t0, 1)
 
-    failing = {tid: v for tid, v in verdicts.items() if v[3]}
+    failing ={tid: v for tid, v in verdicts.items() if v[3]}
     drift = {tid: v for tid, v in verdicts.items() if v[0].startswith("MODEL:")}
     for tid, v in sorted(drift.items())[:20]:
         chk.note_drift(f"trace {tid} ({meta[tid]['origin']}): {v[0]} at step {v[1]}")
